@@ -367,7 +367,9 @@ func propC13(c *ctx) error {
 		// exported fields and methods whose names begin with an upper-case letter outside ASCII (2-, 3- and 4-byte UTF-8)
 		uni := uniNames{Émail: "e", Имя: "i", Ảnh: "a", Ὄνομα: "o", Ｘ: 7, 𐐀bc: "d", Ωmega: 8, ảnh: "hidden"}
 		data := map[string]any{"vm": anon, "vp": anonP, "pvm": &anon, "nm": namedMap{"k": 1, "Len": 2}, "pp": &pp,
-			"box": struct{ V any }{V: sv}, "boxp": struct{ V fmt.Stringer }{V: stringerT("st")}, "u": uni, "up": &uni}
+			"box": struct{ V any }{V: sv}, "boxp": struct{ V fmt.Stringer }{V: stringerT("st")}, "u": uni, "up": &uni,
+			// maps whose key TYPE is an interface, holding string keys (what a YAML / generic decoder produces)
+			"am": map[any]any{"name": "tpl", "n": 3, 1: "one", true: "yes"}, "ams": map[any]string{"k": "v"}, "amn": map[any]any{"inner": map[any]any{"deep": "d"}}}
 		cases := []struct{ src, want string }{
 			{"vm.Get()", "int:5"}, {"vm['Get']()", "int:5"}, {"vm.A", "int:5"}, {"vm.Extra", "string:" + hexOf("x")}, {"vm.Ok()", "int:5"},
 			{"vm.Z", "int:9"}, {"vm.S.B", "string:" + hexOf("bee")}, {"pvm.Get()", "int:5"}, {"pvm.Extra", "string:" + hexOf("x")},
@@ -379,6 +381,8 @@ func propC13(c *ctx) error {
 			{"u.Ｘ", "int:7"}, {"u.𐐀bc", "string:" + hexOf("d")}, {"u.Ωmega", "int:8"}, {"up.Ảnh", "string:" + hexOf("a")}, {"up.Ｘ", "int:7"},
 			{"u['Ảnh']", "string:" + hexOf("a")}, {"u['𐐀bc']", "string:" + hexOf("d")}, {"u.Ḿethod()", "string:" + hexOf("m")}, {"up.Ḿethod()", "string:" + hexOf("m")},
 			{"u.ảnh", "error"}, {"u.Ảnx", "error"},
+			{"am.name", "string:" + hexOf("tpl")}, {"am['name']", "string:" + hexOf("tpl")}, {"am.n", "int:3"}, {"ams.k", "string:" + hexOf("v")}, {"ams['k']", "string:" + hexOf("v")},
+			{"amn.inner.deep", "string:" + hexOf("d")}, {"amn['inner']['deep']", "string:" + hexOf("d")}, {"am.absent", "error"}, {"len(am)", "int:4"},
 		}
 		for _, cs := range cases {
 			out := implEvalStable(cs.src, []any{data})
